@@ -324,7 +324,7 @@ theorem propagate_ok {w : Wiring} {tk : Ticker V} {src : Comp} {t : SimTime} {ch
   exact ⟨_, rfl⟩
 
 /-- while anything is left to update, something is pending (C01 progress, for the loop state) -/
-theorem loop_progress {w : Wiring} (hacyc : w.Acyclic) {t : SimTime} {roots : List Comp}
+theorem anyLoop_progress {w : Wiring} (hacyc : w.Acyclic) {t : SimTime} {roots : List Comp}
     {tk : Ticker V} {pending : List (Dispatch V)} {tr : List (Ev V)}
     (hp : PreInv w t roots tk.toUpdate pending tr) (hc : Complete w tk.toUpdate) (ht : tk.time = t)
     (hne : tk.toUpdate ≠ []) : pending ≠ [] := by
@@ -379,7 +379,7 @@ theorem fifo_loop_ok (hS : S.Valid) {fuel : Nat} {L : Level} (hL : L ∈ S.level
       have htu : ls2.tk.toUpdate = [] := by
         apply Classical.byContradiction
         intro hne
-        exact loop_progress hacyc inv2.pre hcomp inv2.time hne hp
+        exact anyLoop_progress hacyc inv2.pre hcomp inv2.time hne hp
       rw [tickLoop_nil _ _ _ _ _ _ _ hp, htu]
       exact ⟨_, rfl⟩
     | cons d rest =>
